@@ -16,6 +16,12 @@
 //   burst <ab|ba> <count> <seed> <maxlen>  count sends, i-th payload gen_payload(burst_len(seed,i,maxlen), seed*1000003+i)
 //                                                                                                      -> sent=<k>
 //   drain <ab|ba>                          marker + wait; handler log since the previous drain         -> n=<k> <item>,<item>… | timeout …
+//   csend <ab|ba> <threads> <count> <len> <seed> <sndbuf>
+//                                          <threads> threads call SessionManager::send for the same peer at the same time, <count>
+//                                          payloads of <len> bytes each (payload i of thread t = gen_payload(len, seed*1000003+t*1009+i));
+//                                          sndbuf > 0: SO_SNDBUF of the sending session's socket is set first   -> sent=<ok t0>/<ok t1>/…
+//   cdrain <ab|ba> <ms>                    marker + wait (at most <ms>); arrivals since the last drain by sender thread
+//                                                                                -> [timeout |marker-refused ]n=<k> t0=<i,i,…|-> … unknown=<u>
 //   rawopen                                R connects to A, sends its id and a TransportHandshake      -> ok | fail:<why>
 //   rawframe <nonce hex12> <declared|auto> <len> <seed> <chunk>
 //                                          R writes nonce ‖ be32(declared) ‖ ChaCha20(key, nonce, 0, gen_payload(len, seed))
@@ -41,6 +47,7 @@
 #include <sys/socket.h>
 #include <unistd.h>
 
+#include <atomic>
 #include <chrono>
 #include <condition_variable>
 #include <map>
@@ -232,9 +239,9 @@ network::SessionManager* sender_of(const std::string& dir) {
     return nullptr;
 }
 
-std::string do_drain(const std::string& dir) {
+// marker frame down the session, wait (bounded) for it in the receiver's log; the entries before it
+std::vector<std::vector<std::uint8_t>> collect(const std::string& dir, int timeout_ms, std::string& status) {
     auto* from = sender_of(dir);
-    if (!from) return "bad-op";
     Log& log = dir == "ab" ? W->logB : W->logA;
     const PeerId& to = dir == "ab" ? W->idB : W->idA;
     const std::string src = peer_id_to_string(dir == "ab" ? W->idA : W->idB);
@@ -247,18 +254,103 @@ std::string do_drain(const std::string& dir) {
         const auto& v = log.by_peer[src];
         return std::find(v.begin(), v.end(), marker) != v.end();
     };
-    const bool seen = marker_sent && log.cv.wait_for(l, std::chrono::seconds(30), has_marker);
+    const bool seen = marker_sent && log.cv.wait_for(l, std::chrono::milliseconds(timeout_ms), has_marker);
     auto& v = log.by_peer[src];
     std::vector<std::vector<std::uint8_t>> out;
     if (seen) {
         const auto it = std::find(v.begin(), v.end(), marker);
         out.assign(v.begin(), it);
         v.erase(v.begin(), it + 1);
-        return fmt_log(out);
+        status = "";
+        return out;
     }
     out = v;
     v.clear();
-    return std::string(marker_sent ? "timeout " : "marker-refused ") + fmt_log(out);
+    status = marker_sent ? "timeout " : "marker-refused ";
+    return out;
+}
+
+std::string do_drain(const std::string& dir) {
+    if (!sender_of(dir)) return "bad-op";
+    std::string status;
+    const auto out = collect(dir, 30000, status);
+    return status + fmt_log(out);
+}
+
+// payload i of sender thread t of a `csend`
+std::vector<std::uint8_t> cpayload(std::size_t len, std::uint64_t seed, std::uint64_t t, std::uint64_t i) {
+    return gen_payload(len, seed * 1000003ULL + t * 1009ULL + i);
+}
+
+struct CSend {
+    std::size_t threads = 0, count = 0, len = 0;
+    std::uint64_t seed = 0;
+};
+std::map<std::string, CSend> last_csend;  // per direction
+
+// N threads call SessionManager::send for the same peer at the same time
+std::string do_csend(const std::string& dir, std::size_t threads, std::size_t count, std::size_t len, std::uint64_t seed, int sndbuf) {
+    auto* from = sender_of(dir);
+    if (!from || threads == 0 || threads > 16) return "bad-op";
+    const PeerId to = dir == "ab" ? W->idB : W->idA;
+    if (sndbuf > 0) {
+        // a small socket send buffer (ordinary socket configuration) makes the kernel take the frame in several pieces
+        std::shared_ptr<network::SessionManager::Session> sess;
+        {
+            std::scoped_lock lock(from->sessions_mutex_);
+            const auto it = from->sessions_.find(peer_id_to_string(to));
+            if (it != from->sessions_.end()) sess = it->second;
+        }
+        if (sess) {
+            int v = sndbuf;
+            ::setsockopt(static_cast<int>(sess->socket), SOL_SOCKET, SO_SNDBUF, &v, sizeof(v));
+        }
+    }
+    std::vector<std::vector<std::vector<std::uint8_t>>> payloads(threads);
+    for (std::size_t t = 0; t < threads; ++t)
+        for (std::size_t i = 0; i < count; ++i) payloads[t].push_back(cpayload(len, seed, t, i));
+    std::vector<std::size_t> ok(threads, 0);
+    std::atomic<std::size_t> ready{0};
+    std::atomic<bool> go{false};
+    std::vector<std::thread> pool;
+    for (std::size_t t = 0; t < threads; ++t) {
+        pool.emplace_back([&, t] {
+            ready.fetch_add(1);
+            while (!go.load()) std::this_thread::yield();
+            for (std::size_t i = 0; i < count; ++i) {
+                if (from->send(to, payloads[t][i])) ++ok[t];
+            }
+        });
+    }
+    while (ready.load() < threads) std::this_thread::yield();
+    go.store(true);
+    for (auto& th : pool) th.join();
+    last_csend[dir] = CSend{threads, count, len, seed};
+    std::string out = "sent=";
+    for (std::size_t t = 0; t < threads; ++t) out += (t ? "/" : "") + std::to_string(ok[t]);
+    return out;
+}
+
+// what arrived since the last drain, classified by sender thread: `n=<k> t0=<indices in arrival order> … unknown=<u>`
+std::string do_cdrain(const std::string& dir, int timeout_ms) {
+    if (!sender_of(dir) || !last_csend.count(dir)) return "bad-op";
+    const CSend cs = last_csend[dir];
+    std::string status;
+    const auto got = collect(dir, timeout_ms, status);
+    std::map<std::vector<std::uint8_t>, std::pair<std::size_t, std::size_t>> index;
+    for (std::size_t t = 0; t < cs.threads; ++t)
+        for (std::size_t i = 0; i < cs.count; ++i) index[cpayload(cs.len, cs.seed, t, i)] = {t, i};
+    std::vector<std::string> seq(cs.threads);
+    std::size_t unknown = 0;
+    for (const auto& p : got) {
+        const auto it = index.find(p);
+        if (it == index.end()) { ++unknown; continue; }
+        auto& s = seq[it->second.first];
+        s += (s.empty() ? "" : ",") + std::to_string(it->second.second);
+    }
+    std::string out = status + "n=" + std::to_string(got.size());
+    for (std::size_t t = 0; t < cs.threads; ++t) out += " t" + std::to_string(t) + "=" + (seq[t].empty() ? "-" : seq[t]);
+    return out + " unknown=" + std::to_string(unknown);
 }
 
 std::string do_rawopen() {
@@ -357,7 +449,7 @@ int main(int argc, char** argv) {
     std::ios::sync_with_stdio(false);  // run_lines does this too; doing it first keeps the failbit below
     if (!std::getenv("VERIF_TRANSPORT_LOG")) std::cerr.setstate(std::ios_base::failbit);  // SessionManager narrates every frame
     verif::Handler h;
-    h.reset = [] { W.reset(); };
+    h.reset = [] { W.reset(); last_csend.clear(); };
     h.op = [](const std::vector<std::string>& t, const std::string&) -> std::string {
         const auto& op = t[0];
         if (op == "open" && t.size() == 2) {
@@ -385,6 +477,9 @@ int main(int argc, char** argv) {
             return "sent=" + std::to_string(ok);
         }
         if (op == "drain" && t.size() == 2) return do_drain(t[1]);
+        if (op == "csend" && t.size() == 7)
+            return do_csend(t[1], std::stoull(t[2]), std::stoull(t[3]), std::stoull(t[4]), std::stoull(t[5]), std::stoi(t[6]));
+        if (op == "cdrain" && t.size() == 3) return do_cdrain(t[1], std::stoi(t[2]));
         if (op == "rawopen" && t.size() == 1) return do_rawopen();
         if (op == "rawframe" && t.size() == 6) {
             if (W->raw < 0) return "bad-op";
